@@ -1114,6 +1114,10 @@ int __wrap_backtrace(void **buf, int n) {
     int got = __real_backtrace(buf, n);
     if (mode == 2 && got > 1) got = 1;
     if (mode == 3 && got > 2) got = 2;
+    if (mode == 4 && got > 0) { // a very deep call stack: as many frames as the caller has room for (the real frames, repeated)
+        int base = got;
+        while (got < n) { buf[got] = buf[got % base]; got++; }
+    }
     return got;
 }
 int __wrap_pthread_setname_np(pthread_t t, const char *name) {
